@@ -191,15 +191,26 @@ func c02R2(a *A, r *Roles, ar *Arms) {
 		n[lab]++
 		key := fmt.Sprintf("commit-site@parser[arm=%s#%d]", lab, n[lab])
 		as := ar.set(c.Block())
-		guarded := guardedBy(c.Block(), r.Auto, true)
+		var stray, bare []string
+		for _, l := range as {
+			switch {
+			case unguardedCommitArms[l]:
+			case changeArms[l]:
+				// on the paths of this arm the call must sit behind a passed test of the "no BEGIN open" flag
+				if ar.unguarded(c.Block(), l) {
+					bare = append(bare, l)
+				}
+			default:
+				stray = append(stray, l)
+			}
+		}
 		switch {
-		case subset(as, unguardedCommitArms):
-			a.hold(rule, key, a.W.posOf(c), "commit point (guarded=%v)", guarded)
-		case subset(as, changeArms):
-			a.check(guarded, rule, key, a.W.posOf(c), "delivered on its own only when no BEGIN is open",
-				"a change logged inside BEGIN...COMMIT is delivered immediately: the commit call lost its 'no transaction open' guard, so the transaction is split")
+		case len(stray) > 0:
+			a.viol(rule, key, a.W.posOf(c), "commit is called in arm %q, which is not a commit point: an ignorable or unrelated event delivers (and splits) the open transaction", strings.Join(stray, "|"))
+		case len(bare) > 0:
+			a.viol(rule, key, a.W.posOf(c), "a change logged inside BEGIN...COMMIT is delivered immediately: the commit call lost its 'no transaction open' guard in arm %s, so the transaction is split", strings.Join(bare, "|"))
 		default:
-			a.viol(rule, key, a.W.posOf(c), "commit is called in arm %q, which is not a commit point: an ignorable or unrelated event delivers (and splits) the open transaction", lab)
+			a.hold(rule, key, a.W.posOf(c), "commit point; change arms reach it only with no BEGIN open")
 		}
 	}
 	a.atLeast(rule, "commit-site@parser", 3)
@@ -350,13 +361,13 @@ func c02R3(a *A, r *Roles, ar *Arms) {
 	in := func(m map[*ssa.BasicBlock]bool) func(*ssa.BasicBlock) bool {
 		return func(b *ssa.BasicBlock) bool { return m[b] }
 	}
-	autoFalseEdge := func(b *ssa.BasicBlock, k int) bool {
-		iff, ok := lastInstr(b).(*ssa.If)
-		return ok && r.Auto.isLoad(iff.Cond) && k == 1
+	autoFalseEdge := func(pred, b *ssa.BasicBlock, k int) bool {
+		c, neg, ok := condVia(pred, b)
+		return ok && r.Auto.isLoad(c) && (k == 1) != neg
 	}
-	req := func(arm, what string, entry *ssa.BasicBlock, stop func(*ssa.BasicBlock) bool, cut func(*ssa.BasicBlock, int) bool, bad string) {
+	req := func(arm, what string, entry *ssa.BasicBlock, stop func(*ssa.BasicBlock) bool, cut func(pred, b *ssa.BasicBlock, k int) bool, bad string) {
 		key := fmt.Sprintf("required@parser[arm=%s,%s]", arm, what)
-		escapes := reachesAvoiding(entry, head, stop, cut)
+		escapes := reachesAvoidingP(entry, head, stop, cut)
 		if stop(entry) {
 			escapes = false
 		}
